@@ -1,12 +1,120 @@
 import HcipyVerif.Model.Proto
+import HcipyVerif.Model.Coronagraph
 
-/-! Line-protocol front end of the C09 model (stub: not built yet). -/
+/-! Line-protocol front end of the C09 model.
+
+* `count ORDER` → `ok modes=M coeffs=C exps=j:k,j:k,…`
+* `setup ORDER [a] [x] [y]` → `ok n=N modes=M rank=R slack=Q` (stores the Gram–Schmidt basis)
+* `apply [re] [im]` → `ok [re'] [im']` (perfect coronagraph on both real components)
+* `lyot Fre Fim Bre Bim [mre] [mim] SRE SIM [Ere] [Eim]` (matrices `[row];[row]`, stop `-` `-` for none)
+* `occulted Fre Fim Bre Bim [mre] [mim] [Ere] [Eim]`
+* `levels NY NX DX DY Q S W` → level bookkeeping of the multi-scale coronagraphs
+-/
 namespace HcipyVerif.Driver.C09
+open HcipyVerif.Proto HcipyVerif.Coronagraph
 
 structure St where
-  dummy : Unit := ()
+  n : Nat := 0
+  basis : List (Vec Rat n) := []
+
+def ofList (l : List Rat) (n : Nat) : Vec Rat n :=
+  let a := l.toArray
+  Vector.ofFn fun i => a.getD i.1 0
+
+def toList {K} {n : Nat} (v : Vec K n) : List K := v.toList
+
+def cvec (re im : List Rat) (n : Nat) : Vec CRat n :=
+  let a := re.toArray
+  let b := im.toArray
+  Vector.ofFn fun i => ⟨a.getD i.1 0, b.getD i.1 0⟩
+
+def showC {n : Nat} (v : Vec CRat n) : String :=
+  showRatList ((toList v).map (·.re)) ++ " " ++ showRatList ((toList v).map (·.im))
+
+def isZero {n : Nat} (v : Vec Rat n) : Bool := v.toList.all fun q => q == 0
+
+/-- a matrix with `m` rows of length `n` from two lists of rows -/
+def cmat (re im : List (List Rat)) (m n : Nat) : Vector (Vec CRat n) m :=
+  let rows : Array (Vec CRat n) := ((re.zip im).map fun (r, i) => cvec r i n).toArray
+  Vector.ofFn fun k => rows.getD k.1 (Vector.replicate n 0)
+
+def rect (ll : List (List Rat)) (n : Nat) : Bool := ll.all (·.length == n)
+
+def showPad : Pad → String
+  | .ok b a => s!"ok:{b}:{a}"
+  | .raises => "value"
+
+def showPair (p : Rat × Rat) : String := s!"{showRat p.1},{showRat p.2}"
+
+def lyotOp (occ : Bool) (fre fim bre bim mre mim sre sim ere eim : String) : String :=
+  match parseRatLists? fre, parseRatLists? fim, parseRatLists? bre, parseRatLists? bim,
+        parseRatList? mre, parseRatList? mim, parseRatList? ere, parseRatList? eim with
+  | some fre, some fim, some bre, some bim, some mre, some mim, some ere, some eim =>
+    let n := ere.length
+    let m := mre.length
+    if eim.length != n || mim.length != m || fre.length != m || fim.length != m ||
+       bre.length != n || bim.length != n || !rect fre n || !rect fim n || !rect bre m || !rect bim m
+    then "bad-op" else
+    let F := cmat fre fim m n
+    let B := cmat bre bim n m
+    let mask := cvec mre mim m
+    let E := cvec ere eim n
+    if occ then "ok " ++ showC (occultedForward F B mask E) else
+    if sre == "-" && sim == "-" then "ok " ++ showC (lyotForward F B mask none E) else
+    match parseRatList? sre, parseRatList? sim with
+    | some sre, some sim =>
+      if sre.length != n || sim.length != n then "bad-op"
+      else "ok " ++ showC (lyotForward F B mask (some (cvec sre sim n)) E)
+    | _, _ => "bad-op"
+  | _, _, _, _, _, _, _, _ => "bad-op"
 
 def step (st : St) : List String → St × String
+  | ["reset"] => ({}, "ok")
+  | ["count", o] =>
+    match parseNat? o with
+    | some o =>
+      let ex := ",".intercalate ((modeExps o).map fun e => s!"{e.1}:{e.2}")
+      (st, s!"ok modes={modeCount o} coeffs={coeffsLen o} exps={ex}")
+    | none => (st, "bad-op")
+  | ["setup", o, a, x, y] =>
+    match parseNat? o, parseRatList? a, parseRatList? x, parseRatList? y with
+    | some o, some a, some x, some y =>
+      let n := a.length
+      if x.length != n || y.length != n then (st, "bad-op") else
+      let ms := modes (ofList a n) (ofList x n) (ofList y n) o
+      let b := gs ms
+      let rank := (b.filter fun u => !isZero u).length
+      -- conditioning witness: least ⟨r,r⟩/⟨f,f⟩ over the independent modes (1 if there is none)
+      let slack := (ms.zip b).foldl (fun acc (f, r) =>
+        if isZero r then acc else min acc (dot r r / dot f f)) (1 : Rat)
+      ({ n := n, basis := b }, s!"ok n={n} modes={ms.length} rank={rank} slack={showRat slack}")
+    | _, _, _, _ => (st, "bad-op")
+  | ["apply", re, im] =>
+    match parseRatList? re, parseRatList? im with
+    | some re, some im =>
+      if re.length != st.n || im.length != st.n then (st, "bad-op") else
+      let r := residual st.basis (ofList re st.n)
+      let i := residual st.basis (ofList im st.n)
+      (st, s!"ok {showRatList (toList r)} {showRatList (toList i)} power={showRat (power r + power i)}")
+    | _, _ => (st, "bad-op")
+  | ["lyot", fre, fim, bre, bim, mre, mim, sre, sim, ere, eim] =>
+    (st, lyotOp false fre fim bre bim mre mim sre sim ere eim)
+  | ["occulted", fre, fim, bre, bim, mre, mim, ere, eim] =>
+    (st, lyotOp true fre fim bre bim mre mim "-" "-" ere eim)
+  | ["levels", ny, nx, dx, dy, q, s, w] =>
+    match parseNat? ny, parseNat? nx, parseRat? dx, parseRat? dy, parseRat? q, parseRat? s, parseNat? w with
+    | some ny, some nx, some dx, some dy, some q, some s, some w =>
+      if s ≤ 1 || q ≤ 0 || ny = 0 || nx = 0 || dx ≤ 0 || dy ≤ 0 then (st, "err value") else
+      let p : MSParams := { ny, nx, dx, dy, q, s, w }
+      let lv := levels q s
+      if lv > 60 then (st, "err other") else
+      let one (i : Nat) : String :=
+        let d := dimsLevel p i
+        s!"{showRat (qLevel s i)}|{showPair (numAiry p i)}|{d.1},{d.2}|{showPair (deltaLevel p i)}|{showPair (zeroLevel p i)}|{propKind i}"
+      let lvls := ";".intercalate ((List.range lv).map one)
+      let pads := ";".intercalate ((padLevels p lv).map showPad)
+      (st, s!"ok levels={lv} boundary={showBool (levelsBoundary q s)} accepted={showBool (accepted p lv)} lv={lvls} pad={if pads.isEmpty then "-" else pads}")
+    | _, _, _, _, _, _, _ => (st, "bad-op")
   | _ => (st, "bad-op")
 
 end HcipyVerif.Driver.C09
